@@ -252,7 +252,11 @@ func formatFSM(format string, a []cty.Value) (string, error) {
 			case 11:
 				// line 77 "format_fsm.rl"
 
-				verb.ArgNum = (10 * verb.ArgNum) + (int(data[p]) - '0')
+				// An index this large is out of range for any argument list, so
+				// stop accumulating digits rather than let the integer overflow.
+				if verb.ArgNum < 1<<24 {
+					verb.ArgNum = (10 * verb.ArgNum) + (int(data[p]) - '0')
+				}
 
 			case 12:
 				// line 81 "format_fsm.rl"
